@@ -44,9 +44,52 @@ let run_sched dt c0 nt sched =
   done;
   (!c, steps, !dl)
 
+(* first-use cases: fu D flags | NT {nops op*}* | sched | 1 *)
+let first_use line =
+  match split_on '|' (String.sub line 2 (String.length line - 2)) with
+  | hd :: th :: sc :: _ ->
+    let d, flags = (match ints hd with d :: fl -> d, fl | [] -> raise Bad) in
+    if d < 1 || d > maxd || List.length flags < 2 * d then raise Bad;
+    let k = build_cls d flags in
+    let opss = (match ints th with
+      | nt :: rest ->
+        if nt < 1 || nt > cos_max then raise Bad;
+        let rest = ref rest in
+        let next () = match !rest with x :: r -> rest := r; x | [] -> raise Bad in
+        List.init nt (fun _ -> let n = next () in
+          if n < 0 || n > maxops then raise Bad;
+          List.init n (fun _ -> if next () <> 0 then Retain else Release))
+      | [] -> raise Bad) in
+    let nt = List.length opss in
+    let junk = (fun _ -> Some (nat_of_int 77)) in
+    let c = ref (finit opss) in
+    let steps = Array.make nt 0 in
+    let done_ t = match List.nth_opt (!c).fc_thr t with Some th -> fthr_done th | None -> true in
+    let st t = if t >= 0 && t < nt && not (done_ t) then begin
+        steps.(t) <- steps.(t) + 1; c := fstep true junk k !c (nat_of_int t) end in
+    List.iter st (ints sc);
+    let r = ref 0 and dl = ref false in
+    while not (List.for_all fthr_done (!c).fc_thr) && not !dl do
+      for t = 0 to nt - 1 do st t done;
+      incr r; if !r > 20000 then dl := true
+    done;
+    let ks = (!c).fc_k in
+    let ev e = match e with
+      | FCtor f -> " c" ^ string_of_int (int_of_nat f)
+      | FUpd v -> " :" ^ string_of_int (int_of_z v)
+      | FDtor f -> " d" ^ string_of_int (int_of_nat f)
+      | FFree -> " F" in
+    "fu depth=" ^ string_of_int (match ks.k_tab with Some ic -> int_of_nat ic.i_depth | None -> 0)
+    ^ " inits=" ^ string_of_int (int_of_z ks.k_inits)
+    ^ String.concat "" (List.mapi (fun t th -> " | t" ^ string_of_int t ^ ":" ^ String.concat "" (List.map ev th.f_ev)) (!c).fc_thr)
+    ^ " | steps:" ^ String.concat "" (Array.to_list (Array.map (fun s -> " " ^ string_of_int s) steps))
+    ^ (if !dl then " <deadlock>" else "")
+  | _ -> "<bad case>"
+
 let () =
   iter_cases Sys.argv.(1) (fun line ->
     try
+      if String.length line >= 2 && String.sub line 0 2 = "fu" then first_use line else
       match split_on '|' line with
       | hd :: th :: sc :: _ ->
         let d, flags = (match ints hd with d :: fl -> d, fl | [] -> raise Bad) in
